@@ -4,9 +4,42 @@ use crate::plan::*;
 use dsim::rng::Rng;
 use refimpl as r;
 
+/// Nonce number `seed`: random bytes, except that one nonce in six carries a pattern a
+/// data-dependent defect could key on (zero / 0xff runs, tag- and magic-like words, one repeated
+/// byte). At least the last 8 bytes stay random, so nonces remain unique per `seed`.
 pub fn nonce_bytes(seed: u64, len: usize) -> Vec<u8> {
     let mut v = vec![0u8; len];
-    Rng::derive(seed, "nonce").fill(&mut v);
+    let mut rng = Rng::derive(seed, "nonce");
+    rng.fill(&mut v);
+    if len < 16 || rng.below(6) != 0 {
+        return v;
+    }
+    let body = len - 8;
+    match rng.below(12) {
+        0 => v[..4].fill(0),
+        1 => v[0] = 0,
+        2 => v[..body].fill(0),
+        3 => v[..body].fill(0xff),
+        4 => v[..8].copy_from_slice(b"ROUGHTIM"),
+        5 => v[..4].copy_from_slice(b"NONC"),
+        6 => v[..4].copy_from_slice(b"ZZZZ"),
+        7 => v[..4].copy_from_slice(b"PAD\xff"),
+        8 => {
+            let b = rng.below(256) as u8;
+            v[..body].fill(b)
+        }
+        9 => v[body - 4..body].copy_from_slice(&[0xff; 4]),
+        10 => {
+            // a little-endian word that reads as a plausible count / offset / version
+            let w = *rng.pick(&[0u32, 1, 2, 4, 32, 64, 1024, 0x8000_000d, 0xffff_ffff]);
+            let at = 4 * rng.below((body / 4) as u64) as usize;
+            v[at..at + 4].copy_from_slice(&w.to_le_bytes())
+        }
+        _ => {
+            let at = rng.below(body as u64) as usize;
+            v[at] = *rng.pick(&[0u8, 0xff, 0x0a, 0x22, 0x25, 0x7f, 0x80])
+        }
+    }
     v
 }
 
@@ -122,6 +155,12 @@ pub fn apply(d: &mut Vec<u8>, m: &Mutation) {
 
 /// Address of harness client socket number `sock`.
 pub fn client_addr(sock: u32) -> std::net::SocketAddr {
+    // one socket in thirteen sits at the edges of the address / port space (injective in `sock`
+    // below 30000: the third octet fixes sock / 200, the port the rest)
+    if sock % 13 == 7 && sock < 30_000 {
+        let ip = std::net::Ipv4Addr::new(223, 255, (sock / 200) as u8, 255);
+        return std::net::SocketAddr::new(std::net::IpAddr::V4(ip), 65_535 - (sock % 200) as u16 * 256);
+    }
     let ip = std::net::Ipv4Addr::new(10, 0, (sock / 200) as u8, (sock % 200 + 1) as u8);
     std::net::SocketAddr::new(std::net::IpAddr::V4(ip), 5000 + (sock % 50_000) as u16)
 }
